@@ -157,6 +157,7 @@ Proof.
   - split; [apply apply_ops_sorted; exact Sd|exact Sp].
   - split; [rewrite db_setb; exact Sd|]. apply pends_sorted_setb; [exact Sp|].
     apply batch_run_pend_sorted. apply pends_sorted_getb; exact Sp.
+  - split; [apply apply_ops_sorted; exact Sd|exact Sp].
 Qed.
 
 Lemma init_inv : Inv init.
@@ -203,13 +204,13 @@ Qed.
 
 (* reads never change anything *)
 Definition is_read (o : op) : bool :=
-  match o with DbGet _ | DbHas _ | DbIter _ _ | BGetPending _ _ | BSize _ => true | _ => false end.
+  match o with DbGet _ | DbHas _ | DbIter _ _ | BGetPending _ _ | BSize _ | DbCompact => true | _ => false end.
 Lemma read_pure s o : is_read o = true -> fst (step s o) = s.
 Proof. destruct o; cbn; try discriminate; reflexivity. Qed.
 
 (* only Write and Replay-into-db let a batch touch the database: "all or none" *)
 Definition touches_db (o : op) : bool :=
-  match o with DbPut _ _ | DbDel _ | BWrite _ | BReplayDb _ => true | _ => false end.
+  match o with DbPut _ _ | DbDel _ | BWrite _ | BReplayDb _ | DbIterDuring _ _ _ => true | _ => false end.
 Lemma batch_ops_isolated s o : touches_db o = false -> s_db (fst (step s o)) = s_db s.
 Proof. destruct o; cbn; try discriminate; intros _; rewrite ?db_setb; reflexivity. Qed.
 
@@ -295,6 +296,17 @@ Proof.
   change (batch_del (getb s b) k) with (batch_apply (getb s b) (WDel k)).
   rewrite batch_apply_pend_tracking by exact T. cbn. rewrite keqb_refl. reflexivity.
 Qed.
+
+(* an iterator is a snapshot of the store at its creation: writes made while it is open are not seen by it,
+   and they take effect on the store exactly as if no iterator were open *)
+Lemma iterator_is_snapshot s p st ws :
+  snd (step s (DbIterDuring p st ws)) = snd (step s (DbIter p st))
+  /\ s_db (fst (step s (DbIterDuring p st ws))) = apply_ops ws (s_db s)
+  /\ s_b0 (fst (step s (DbIterDuring p st ws))) = s_b0 s /\ s_b1 (fst (step s (DbIterDuring p st ws))) = s_b1 s.
+Proof. cbn. repeat split. Qed.
+
+Lemma compact_is_invisible s : step s DbCompact = (s, ONone).
+Proof. reflexivity. Qed.
 
 (* determinism: the outputs of a history are a function of the history alone, so any two
    backends that agree with the model agree with each other, byte for byte. *)
